@@ -19,6 +19,7 @@ import StimModel.Model.Record
 import StimModel.Model.Amps
 import StimModel.Model.XorVec
 import StimModel.Model.RefTree
+import StimModel.Model.RecordBatch
 /-! Line-protocol dispatcher: one request line in, one answer line out. -/
 namespace Stim.Driver
 open Stim Stim.Wire
@@ -747,6 +748,33 @@ def reftreeCmd (toks : List String) : String :=
   | "index" :: i :: rest => (match parseTreeAux rest, i.toNat? with
       | some (t, []), some ii => (match t.decompress[ii]? with | some b => (if b then "1" else "0") | none => "x")
       | _, _ => "bad-request")
+  | _ => "bad-request"
+
+open Stim.RecordBatch in
+/-- `recbatch run <max_lookback> <ref bits|-> <op>*` — the batched measurement record.  ops: `r<row bits>` record a row, `i` intermediate flush,
+    `F` final flush, `m` mark all as written, `l<k>` lookback (answers the row or `x`).  The answer lists the lookback answers, then
+    `OUT` followed by every row handed to the writer, then the counters `s<stored> u<unwritten> w<written>`. -/
+def recbatchRun (toks : List String) : String :=
+  match toks with
+  | mS :: refS :: ops =>
+    match mS.toNat? with
+    | none => "bad-request"
+    | some m =>
+      let ref := bitsOf refS
+      let rec go : BRec → List String → List String → List (List Bool) → String
+        | r, [], acc, out =>
+          String.intercalate " " (acc.reverse ++ ["OUT"] ++ out.map strOfBits ++ [s!"s{r.rows.length}", s!"u{r.unwritten}", s!"w{r.written}"])
+        | r, t :: ts, acc, out =>
+          if t == "i" then let (r1, o) := step ref r .flushI; go r1 ts acc (out ++ o)
+          else if t == "F" then let (r1, o) := step ref r .flushF; go r1 ts acc (out ++ o)
+          else if t == "m" then let (r1, o) := step ref r .markWritten; go r1 ts acc (out ++ o)
+          else if t.startsWith "r" then go (step ref r (.record (bitsOf (t.drop 1).toString))).1 ts acc out
+          else if t.startsWith "l" then
+            match (t.drop 1).toString.toNat? with
+            | some k => go r ts ((match r.lookback k with | some row => strOfBits row | none => "x") :: acc) out
+            | none => "bad-request"
+          else "bad-request"
+      go (BRec.init m) ops [] []
   | _ => "bad-request"
 
 def xorClosure (vs : List (List Bool)) : List (List Bool) :=
@@ -1623,6 +1651,7 @@ def answer (toks : List String) : String :=
   | "amps" :: rest => ampsCmd rest
   | "xorvec" :: rest => xorvecCmd rest
   | "reftree" :: rest => reftreeCmd rest
+  | "recbatch" :: "run" :: rest => recbatchRun rest
   | "demsem" :: "check" :: rest => demsemCheck rest
   | "demsem" :: "decomp" :: rest => demsemDecomp rest
   | "demsample" :: "check" :: rest => demsampleCheck rest
